@@ -53,6 +53,30 @@ func (x *run) checkC01(obs []seen) *Failure {
 			return fail("C01", "same-instance", s.ViaKind+"/"+formFeature(x.M.Regs[s.Owner.Reg]), "%s yielded %v, but singleton r%d.%d's one instance is %v", s.Where, s.E, s.Owner.Reg, s.Owner.Out, want)
 		}
 	}
+	// "having it injected into any other service yields that one instance": whoever declares a
+	// dependency on a registered singleton receives it - also through an optional field, and
+	// whatever the order of the registration calls was
+	for _, inv := range x.W.AllInvs() {
+		if inv.Outcome != 1 {
+			continue
+		}
+		for ai, a := range inv.Args {
+			if a.Dep.Builtin != 0 || a.Dep.Ignored || a.Dep.Group != "" {
+				continue
+			}
+			tg := x.M.DepTargets(a.Dep)
+			if len(tg) != 1 || x.M.NilOutput(kit.Ident{T: a.Dep.T, Key: a.Dep.Key}) {
+				continue
+			}
+			if _, isSingle := exp[tg[0].Reg]; isSingle && !a.Present {
+				kind := "required"
+				if a.Dep.Optional {
+					kind = "optional"
+				}
+				return fail("C01", "injected", kind+"/"+lifeName(x.M.Regs[inv.Reg].Life), "arg %d (%s) of r%d#%d received nothing although singleton r%d provides it", ai, a.Dep, inv.Reg, inv.N, tg[0].Reg)
+			}
+		}
+	}
 	return nil
 }
 
